@@ -38,13 +38,16 @@ RULE = ("Hypothesis-generated pairs of RDM stacks over 3-7 conditions, n1,n2 in 
         "mid-ranks, enumeration of all joint tie-breakings for rho-a where <=400, dense V built "
         "element-wise and inverted, Bures fidelity as nuclear norm of Xc'Yc from the points and of the factorised kernels -HDH/2) plus the "
         "laws symmetry, self-similarity, range, permutation invariance, array == RDMs input. "
+        "Sub-check 'degenerate': stacks of 2-4 RDMs with zero/constant RDMs at generated positions. "
         "Exhaustive: all 729 pairs of 3-pair RDM vectors over {0,1,2} (every pair of weak orders "
         "of 3 dissimilarities) for the five rank measures. Non-trivial: n1 != n2, or ties "
         "present (rank measures), or sigma_k given (whitened measures), or coincident points / "
         "rank-deficient embedding (Bures); distinct by SHA1 of the case.")
 ASSUMPTIONS = [
     "constant RDM vectors (zero variance / zero norm) are outside the domain of the correlation-"
-    "type and cosine measures and of Kendall tau-b; generators construct around them",
+    "type and cosine measures and of Kendall tau-b; the value sub-checks construct around them; "
+    "sub-check 'degenerate' puts them into stacks and asserts only the entries between the "
+    "other, regular RDMs (entries involving the degenerate RDM are 0 or NaN and not asserted)",
     "self-similarity 1 for tau-a and rho-a is asserted only for tie-free RDMs (both are < 1 by "
     "definition when an RDM has ties)",
     "sigma_k matrices have condition number <= ~60; values through the library's conjugate-"
@@ -376,6 +379,76 @@ def classify_bures(case):
     return labels, deficient or coincident or len(case['v1']) != len(case['v2'])
 
 
+# ---- sub-check: a degenerate RDM inside a stack must not disturb its neighbours ---------------
+
+COSINE_FAMILY = ['cosine', 'corr', 'spearman', 'cosine_cov', 'corr_cov']
+
+
+@st.composite
+def degenerate_case(draw):
+    method = draw(st.sampled_from(COSINE_FAMILY * 2 + ['kendall', 'tau-a', 'rho-a']))
+    n = draw(st.integers(3, 5))
+    n1 = draw(st.integers(2, 4))
+    n2 = draw(st.integers(1, 4))
+    kind = draw(st.sampled_from(['grid', 'smallint', 'pos']))
+    length = ref.n_pairs(n)
+    v1 = draw(U.vectors(n1, length, kind))
+    v2 = draw(U.vectors(n2, length, kind))
+    # which RDMs are degenerate: bit masks, at least one in the first stack
+    m1 = draw(st.integers(1, 2 ** n1 - 2)) if n1 > 1 else 1
+    m2 = draw(st.integers(0, 2 ** n2 - 1)) if draw(st.booleans()) else 0
+    const = 0.0 if method in ('cosine', 'cosine_cov') else float(draw(st.integers(-2, 3)))
+    for i in range(n1):
+        if m1 >> i & 1:
+            v1[i] = [const] * length
+    for j in range(n2):
+        if m2 >> j & 1:
+            v2[j] = [const] * length
+    sigma = None
+    if method in WHITE:
+        sk = draw(st.sampled_from(['none', 'none', 'vector', 'matrix']))
+        sigma = None if sk == 'none' else draw(U.sigma_vector(n) if sk == 'vector' else U.sigma_matrix(n))
+    return dict(method=method, n_cond=n, kind=kind, v1=v1, v2=v2, sigma=sigma,
+                form1=forms_for(draw, n1), form2=forms_for(draw, n2), swap=draw(st.booleans()))
+
+
+def _is_degenerate(method, vec):
+    if method in ('cosine', 'cosine_cov'):
+        return max(vec) == 0.0 and min(vec) == 0.0
+    return max(vec) == min(vec)
+
+
+def check_degenerate(case):
+    m, n, sigma = case['method'], case['n_cond'], case['sigma']
+    v1, v2, f1, f2 = case['v1'], case['v2'], case['form1'], case['form2']
+    if case['swap']:
+        v1, v2, f1, f2 = v2, v1, f2, f1
+    main = call(m, v1, v2, sigma, f1, f2)
+    ok1 = [i for i, v in enumerate(v1) if not _is_degenerate(m, v)]
+    ok2 = [j for j, v in enumerate(v2) if not _is_degenerate(m, v)]
+    rtol, atol = white_tol(sigma, n) if m in WHITE else (1e-9, 1e-10)
+    vmat = ref.dense_v(n, sigma) if m in WHITE else None
+    sig = 'degenerate:other-rows:' + ('cosine-family' if m in COSINE_FAMILY else m)
+    for i in ok1:
+        for j in ok2:
+            want = ref.sim(m, v1[i], v2[j], sigma_k=sigma, n=n, v=vmat)
+            require_close(main[i, j], want, '%s entry (%d,%d) between two regular RDMs of stacks that '
+                          'also contain a zero/constant RDM' % (m, i, j), sig, rtol=rtol, atol=atol)
+    # entries involving the degenerate RDM itself are undefined (0 or NaN): not asserted
+
+
+def classify_degenerate(case):
+    m = case['method']
+    d1 = [_is_degenerate(m, v) for v in case['v1']]
+    d2 = [_is_degenerate(m, v) for v in case['v2']]
+    labels = ['method:' + m, 'degenerate:first-stack-only' if not any(d2) else 'degenerate:both-stacks',
+              'sigma:' + sigma_kind(case['sigma'])]
+    # a degenerate RDM that precedes a regular one shifts the positions of the regular results
+    before = any(d and not all(ds[k + 1:]) for ds in (d1, d2) for k, d in enumerate(ds))
+    labels.append('degenerate-before-regular' if before else 'degenerate-last')
+    return labels, before
+
+
 SUBCHECKS = [
     SubCheck('plain', plain_case(), check_plain, classify_plain, quick=600,
              doc='cosine / Pearson: (i,j) entries equal the definition; symmetry, self = 1, range, '
@@ -392,4 +465,7 @@ SUBCHECKS = [
     SubCheck('bures', bures_case(), check_bures, classify_bures, quick=600,
              doc='Bures similarity / squared metric of embeddable RDMs vs nuclear-norm fidelity '
                  'from the points and from the kernels; same laws (similarity in [0,1], metric >= 0, self 1 / 0)'),
+    SubCheck('degenerate', degenerate_case(), check_degenerate, classify_degenerate, quick=400,
+             doc='stacks of 2-4 RDMs containing all-zero (cosine) / constant (centred, ranked) RDMs: '
+                 'every entry between two regular RDMs still equals the definition'),
 ]
